@@ -137,8 +137,8 @@ class C03:
                   "description of utf8.DecodeRune and encodeRune_of_exact: re-encoding a decoded rune gives back its bytes). Hypotheses: "
                   "payloads < 2^32 bytes; keys of one literal pairwise different for the decoder's table; LF not printable in the IsPrint "
                   "table (C03_isprint_lf, regenerated each run); and, at protocol 0 only, FloatTextOK for each float in the value: "
-                  "its %g text is newline-free and ParseFloat returns the same float - strconv's shortest-round-trip property, NOT "
-                  "proved (C03_roundtrip_bin: no such hypothesis from protocol 1 on). PARTIAL: that float-text hypothesis, *big.Int keys "
+                  "ParseFloat returns the same float for its %g text (newline-freeness of that text is proved, fmtG_no_lf) - strconv's "
+                  "shortest-round-trip property, NOT proved (C03_roundtrip_bin: no such hypothesis from protocol 1 on). PARTIAL: that float-text hypothesis, *big.Int keys "
                   "of builtin maps, and the normal forms of non-canonical inputs are tied by correspondence: decode(encode(v)) is computed "
                   "by the implementation and by the model for every generated value x protocol x mode and compared with each other and "
                   "with the documented normal form; the argument is re-rendered after Encode to detect mutation.")
@@ -247,16 +247,25 @@ def own_corpus_lines(prop):
 class C05:
     prop = "C05"
     lean_module = "Ogorek.Props.C05"
-    theorems = ["Ogorek.C05_encodable", "Ogorek.C16_resolved", "Ogorek.C16_result_wf"]
+    theorems = ["Ogorek.C05_decodes_back", "Ogorek.canon_of_rep", "Ogorek.exec_heapKeys", "Ogorek.decode_heapKeys", "Ogorek.C05_encodable",
+                "Ogorek.C16_resolved", "Ogorek.C16_result_wf", "Ogorek.C03_roundtrip"]
     trusted_base = TB_COMMON
-    level_text = ("Lean theorems: every resolved, acyclic decode result consists of documented types (C16_resolved, C16_result_wf) and every "
-                  "such value is accepted by the encoder at every protocol and StrictUnicode setting except for the three documented "
-                  "limitations — never a TypeError, never a panic (C05_encodable, by mutual structural induction over values). PARTIAL: "
-                  "'decodes back to itself' rests on the C03 round trip, closed for integers only; the full statement is tied by "
-                  "correspondence: decode->encode(p)->decode is run by the implementation and by the model on every successful input.")
+    level_text = ("Lean theorem C05_decodes_back: for EVERY byte string Decode accepts (from a fresh Decoder or any state satisfying the key "
+                  "invariant) and the plain value v its result stands for (containers unfolded; documented types; payloads < 4 GiB; no Call "
+                  "of the bytes / bytearray builtins - excluded by the property; with builtin maps no *big.Int key), at every protocol 0-5 at "
+                  "which Encode v returns no error, decoding exactly the bytes written succeeds, consumes them all and returns a result "
+                  "standing for the same v: identical in type and content. Proof: a new invariant over ALL executions - every container the "
+                  "decoder builds holds hashable, pairwise different keys (exec_heapKeys by cases over all instructions, decode_heapKeys) - "
+                  "makes the represented value canonical (canon_of_rep, mutual structural induction), then the round-trip theorem "
+                  "C03_roundtrip applies. That every resolved acyclic result consists of documented types is C16_resolved / C16_result_wf, "
+                  "and that the encoder accepts every such value except for the three documented limitations - never a TypeError, never "
+                  "a panic - is C05_encodable. PARTIAL: at protocol 0 the float-text hypothesis of C03 (ParseFloat inverts %g); that the "
+                  "plain value exists for every acyclic result is shown by example, not in general; *big.Int keys of builtin maps. These "
+                  "are tied by correspondence: decode->encode(p)->decode is run by the implementation and by the model on every "
+                  "successful input.")
     level_note = ("trusted: Lean kernel + standard axioms; encoder / decoder models; results with cycles, beyond the node budget, or containing "
                   "calls of the bytes / bytearray builtins are outside the statement (counted in the evidence)")
-    technique = "Lean 4 proof (C16 invariant composed with the C03 round trip) + differential correspondence of decode→encode→decode"
+    technique = "Lean 4 proof (key invariant over all executions + bridge lemma + C03 round trip) + differential correspondence of decode→encode→decode"
     rule = ("byte strings that decode successfully (fuzz corpus, mutations, generated programs incl. memo/DUP sharing, persistent ids) "
             "x 4 configurations; the result is re-encoded at each protocol 0..5 and decoded again, on the implementation and on the "
             "model; results with cycles, more than 200k nodes, or calls of the bytes/bytearray builtins are skipped (counted); "
@@ -346,7 +355,7 @@ ARGMAP = {"none": None}
 class C12:
     prop = "C12"
     lean_module = "Ogorek.Props.C12"
-    theorems = ["Ogorek.C12_conforms", "Ogorek.C12_conforms_bin", "Ogorek.scans_val", "Ogorek.scanLoop_run", "Ogorek.C12_reject", "Ogorek.C12_facts"]
+    theorems = ["Ogorek.C12_conforms", "Ogorek.C12_conforms_bin", "Ogorek.scans_val", "Ogorek.scanLoop_run", "Ogorek.fmtG_no_lf", "Ogorek.C12_reject", "Ogorek.C12_facts"]
     trusted_base = TB_COMMON + ["the opcode table of Ogorek/Opcodes.lean (transcribed from pickletools; diffed against pickletools.opcodes of CPython 3.11 on every run)"]
     level_text = ("Lean theorem C12_conforms: for EVERY value (any nesting; application structs, unsigned ints, maps and Dicts included) "
                   "with payloads < 2^32 bytes and EVERY protocol p in 0..5, if Encode returns no error its output passes the independent "
@@ -356,9 +365,8 @@ class C12:
                   "value (scans_val: each fragment scans as table opcodes of protocols <= p with net effect 'push one object') and a "
                   "run lemma for the scanner (scanLoop_run); the text lines of protocol 0 are newline-free because the two codecs' outputs "
                   "are (pyquote_no_lf, rue_no_lf, proved) and LF is not printable in the regenerated IsPrint table. A protocol outside 0-5 "
-                  "is rejected with nothing written (C12_reject); highestProtocol in the source is the model's (C12_facts). PARTIAL: at "
-                  "protocol 0 the theorem assumes that the %g text of each float in the value holds no newline (a property of strconv, not "
-                  "proved; C12_conforms_bin needs no such hypothesis from protocol 1 on). Tie: the IMPLEMENTATION's bytes are scanned "
+                  "is rejected with nothing written (C12_reject); highestProtocol in the source is the model's (C12_facts). The %g text of "
+                  "every float64 is proved newline-free as well (fmtG_no_lf), so the theorem has no hypothesis about floats. Tie: the IMPLEMENTATION's bytes are scanned "
                   "with the same scanner (table diffed against pickletools.opcodes each run) and cross-checked with pickletools.genops, "
                   "while the model must emit the same chunks.")
     level_note = ("trusted: Lean kernel + standard axioms; encoder model; the transcribed opcode table (checked against CPython's pickletools on every run)")
